@@ -540,6 +540,33 @@ def part_d(ck, tier, rng):
             except OSError:
                 pass
         X.with_timeout(lambda: group.terminate(timeout=1.0), 10)
+    # the via gateway's process is already dead when terminate() is called: the member routed through it cannot be reached any more;
+    # terminate must still return with an empty group (the orphaned worker ends by itself on EOF: C11)
+    for rd in range(1 if tier == "quick" else 3):
+        group = execnet.Group()
+        m = group.makegateway("popen//id=dm%d" % rd)
+        sub = group.makegateway("popen//via=dm%d//id=ds%d" % (rd, rd))
+        spid = sub._rinfo().pid
+        mpid = m._rinfo().pid
+        os.kill(mpid, signal.SIGKILL)
+        time.sleep(0.3)
+        t0 = time.time()
+        st, val = X.with_timeout(lambda: group.terminate(timeout=1.0), 20)
+        dt = time.time() - t0
+        time.sleep(0.5)
+        ck.case(("via-master-dead", rd), nontrivial=True)
+        ck.count("via_master_dead")
+        if st != "ok":
+            ck.fail("terminate-raises-or-hangs:via-gateway-already-dead", {"status": st, "error": repr(val)[:200], "seconds": dt})
+        elif len(group) or group._gateways_to_join:
+            ck.fail("group-not-empty-after-terminate:via-gateway-already-dead", {"group_len": len(group), "tojoin": len(group._gateways_to_join)})
+        if pid_alive(spid):
+            ck.fail("via-sub-child-alive-after-terminate:via-gateway-already-dead", {"pid": spid, "seconds": dt})
+            try:
+                os.kill(spid, signal.SIGKILL)
+            except OSError:
+                pass
+        X.with_timeout(lambda: group.terminate(timeout=1.0), 10)
     # the write of the exit request is not covered by the time-out: a stopped worker and a local sender that fills the pipe
     group = execnet.Group()
     gw = group.makegateway("popen//id=full")
